@@ -231,6 +231,9 @@ pub enum Belief {
     /// belief price = (offer/return quoted) scaled by ppm/10^6
     AroundQuote { ppm: u32 },
     Zero,
+    /// a belief price so high that any return satisfies it (10^exp offer units per ask unit): lets
+    /// degenerate swaps - those that deliver nothing - through the protection
+    Huge { exp: u8 },
 }
 
 #[derive(Debug, Clone, Serialize, Deserialize, PartialEq)]
@@ -317,7 +320,16 @@ pub enum POp {
     /// a trader swaps an amount out and back through 1-3 pools (only the C03 engine generates it)
     RoundTrip { user: u8, pool: u16, offer: u8, path: Vec<(u16, u8)>, ppm: u32, close: u16 },
     /// fully resolved direct swap (used internally by RoundTrip; never generated)
-    SwapExact { user: u8, pool_id: String, offer_denom: String, ask_denom: String, amount: u128 },
+    SwapExact {
+        user: u8,
+        pool_id: String,
+        offer_denom: String,
+        ask_denom: String,
+        amount: u128,
+        /// with a belief price nothing can fall short of (lets a swap that delivers nothing through)
+        #[serde(default)]
+        huge_belief: bool,
+    },
 }
 
 fn user() -> impl Strategy<Value = u8> {
@@ -412,7 +424,7 @@ pub fn swap_strat() -> impl Strategy<Value = POp> {
         slip_strat(),
         proptest::option::weighted(
             0.15,
-            prop_oneof![8 => (500_000u32..1_500_000).prop_map(|ppm| Belief::AroundQuote { ppm }), 1 => Just(Belief::Zero)],
+            prop_oneof![8 => (500_000u32..1_500_000).prop_map(|ppm| Belief::AroundQuote { ppm }), 1 => Just(Belief::Zero), 2 => (6u8..=19).prop_map(|exp| Belief::Huge { exp })],
         ),
         recv(),
     )
